@@ -250,11 +250,18 @@ fn random_fbig(rng: &mut Rng, max_prec: usize, far: i64) -> Value {
             exp = -1;
             kind = "half";
         }
-        1 if base % 2 == 0 && d >= 2 => {
-            // 0.4999.. and 0.5000..1 : just below / above one half
+        1 if d >= 2 => {
+            // 0.4999.. and 0.5000..1 : just below / above one half (an odd base has no exact half:
+            // (B^n - 1) / 2 is the largest fraction below it, one more is the smallest above)
             let n = d;
             let half = pow_base(base, n) / UBig::from(2u8);
-            mag = if rng.coin() { half - UBig::ONE } else { half + UBig::ONE };
+            mag = if base % 2 == 0 {
+                if rng.coin() { half - UBig::ONE } else { half + UBig::ONE }
+            } else if rng.coin() {
+                half
+            } else {
+                half + UBig::ONE
+            };
             exp = -(n as i64);
             kind = "near-half";
         }
@@ -408,6 +415,25 @@ fn huge_prims(log: &mut Log, digits: &[usize]) {
     }
 }
 
+/// odd base: the fractions directly below and above one half, (B^p - 1) / 2 and (B^p + 1) / 2, for every
+/// digit count at which the exact comparison (not the log2 pre-filter) decides; always part of a seeded run
+fn odd_base_halves(log: &mut Log) {
+    let base = 3u64;
+    for p in 2usize..=14 {
+        let below: UBig = (UBig::from(base).pow(p) - UBig::ONE) / UBig::from(2u8);
+        let above = &below + UBig::ONE;
+        for (kind, f) in [("odd-below-half", below.clone()), ("odd-above-half", above)] {
+            for s in [1i8, -1] {
+                for iv in [0i64, 1, -1, 2] {
+                    let c = json!({"op": "round_fract", "base": base, "kind": kind,
+                        "i": enc_i(&IBig::from(iv)), "f": enc_i(&(IBig::from(f.clone()) * IBig::from(s))), "prec": p});
+                    prim_case(log, &c, "odd");
+                }
+            }
+        }
+    }
+}
+
 fn main() {
     let args = &start();
     let mut log = Log::create(&args.out);
@@ -447,6 +473,9 @@ fn main() {
         dispatch(&mut log, &c, "rnd");
     }
     huge_prims(&mut log, &huge);
+    if args.n > 0 {
+        odd_base_halves(&mut log);
+    }
     let n = log.finish();
     eprintln!("c10: {} events", n);
 }
